@@ -202,6 +202,114 @@ def judge(ctx, s1, s2, tb, fb):
                 ctx.violate("self_is_one", "self_is_one", observed=v, expected=1, spec={"kind": "affinity", "g1": s, "g2": s, "tb": tb, "fb": fb})
 
 
+
+# ------------------------------------------------------------------ lattice pairs (exact IoU by cell counting)
+LAT_N = 8
+
+
+def _skyline(rng, a, b, lo, hi_max, t0, dt, f0, df, hanging=False):
+    """Rectilinear simple polygon over columns a..b-1 with a flat side at ``lo`` and varying heights (L, U, T, stairs)."""
+    hs = [rng.randint(1, hi_max) for _ in range(a, b)]
+    if b - a >= 3 and rng.random() < 0.5:      # make a U: tall arms, short middle
+        hs[0] = hs[-1] = hi_max
+        for k in range(1, len(hs) - 1):
+            hs[k] = rng.randint(1, max(1, hi_max - 1))
+    pts = [(a, lo), (b, lo)]
+    for k in range(len(hs) - 1, -1, -1):
+        pts.append((a + k + 1, lo + hs[k]))
+        pts.append((a + k, lo + hs[k]))
+    ring = []
+    for i, j in pts + [pts[0]]:
+        jj = (lo + hi_max - (j - lo)) if hanging else j
+        p = [t0 + i * dt, f0 + jj * df]
+        if not ring or ring[-1] != p:
+            ring.append(p)
+    return ring
+
+
+def lattice_geom(rng, t0, dt, f0, df):
+    """An areal geometry whose vertices lie on a coarse shared lattice, with axis-parallel edges."""
+    N = LAT_N
+    kind = rng.choice(["box", "skyline", "skyline", "multibox", "multi", "holed"])
+    if kind == "box":
+        a, b = sorted(rng.sample(range(N + 1), 2)); c, d = sorted(rng.sample(range(N + 1), 2))
+        return {"type": "BoundingBox", "coordinates": [t0 + a * dt, f0 + c * df, t0 + b * dt, f0 + d * df]}
+    if kind == "skyline":
+        a = rng.randint(0, N - 2); b = rng.randint(a + 1, N)
+        lo = rng.randint(0, N - 2); hm = rng.randint(1, N - lo)
+        return {"type": "Polygon", "coordinates": [_skyline(rng, a, b, lo, hm, t0, dt, f0, df, hanging=rng.random() < 0.4)]}
+    if kind == "holed":
+        a, c = rng.randint(0, N - 4), rng.randint(0, N - 4)
+        w, h = rng.randint(3, N - a), rng.randint(3, N - c)
+        ha, hc = rng.randint(a + 1, a + w - 2), rng.randint(c + 1, c + h - 2)
+        hw, hh = rng.randint(1, a + w - 1 - ha), rng.randint(1, c + h - 1 - hc)
+        box = lambda i0, j0, i1, j1: [[t0 + i0 * dt, f0 + j0 * df], [t0 + i1 * dt, f0 + j0 * df], [t0 + i1 * dt, f0 + j1 * df], [t0 + i0 * dt, f0 + j1 * df], [t0 + i0 * dt, f0 + j0 * df]]
+        return {"type": "Polygon", "coordinates": [box(a, c, a + w, c + h), box(ha, hc, ha + hw, hc + hh)]}
+    # several members in column ranges separated by at least one empty column
+    polys, col = [], 0
+    while col < N - 1 and len(polys) < 3:
+        a = rng.randint(col, min(col + 2, N - 1)); b = rng.randint(a + 1, min(a + 3, N))
+        lo = rng.randint(0, N - 2); hm = rng.randint(1, N - lo)
+        if kind == "multibox":
+            ring = [[t0 + a * dt, f0 + lo * df], [t0 + b * dt, f0 + lo * df], [t0 + b * dt, f0 + (lo + hm) * df], [t0 + a * dt, f0 + (lo + hm) * df], [t0 + a * dt, f0 + lo * df]]
+        else:
+            ring = _skyline(rng, a, b, lo, hm, t0, dt, f0, df, hanging=rng.random() < 0.4)
+        polys.append([ring])
+        col = b + 1
+    return {"type": "MultiPolygon", "coordinates": polys}
+
+
+def _in_ring(x, y, ring):
+    inside = False
+    for (x1, y1), (x2, y2) in zip(ring, ring[1:]):
+        if (y1 > y) != (y2 > y) and x < x1 + (y - y1) * (x2 - x1) / (y2 - y1):
+            inside = not inside
+    return inside
+
+
+def lattice_cells(spec, t0, dt, f0, df):
+    """Cells of the lattice covered by the geometry: even-odd test of each cell centre (no shapely involved)."""
+    t, c = spec["type"], spec["coordinates"]
+    out = set()
+    for i in range(LAT_N):
+        for j in range(LAT_N):
+            x, y = t0 + (i + 0.5) * dt, f0 + (j + 0.5) * df
+            if t == "BoundingBox":
+                hit = c[0] < x < c[2] and c[1] < y < c[3]
+            else:
+                polys = [c] if t == "Polygon" else c
+                hit = any(_in_ring(x, y, p[0]) and not any(_in_ring(x, y, h) for h in p[1:]) for p in polys)
+            if hit:
+                out.add((i, j))
+    return out
+
+
+def judge_lattice(ctx, s1, s2, lat, tb, fb):
+    """Areal geometries are not buffered, so the affinity of two lattice shapes is a ratio of cell counts."""
+    from soundevent.evaluation import affinity as A
+
+    c1, c2 = lattice_cells(s1, *lat), lattice_cells(s2, *lat)
+    union = len(c1 | c2)
+    want = 0.0 if union == 0 else len(c1 & c2) / union
+    spec = {"kind": "lattice", "g1": s1, "g2": s2, "lat": list(lat), "tb": tb, "fb": fb}
+    try:
+        g1, g2 = geoms.build(s1), geoms.build(s2)
+        if not (geoms.is_shapely_valid(g1) and geoms.is_shapely_valid(g2)):
+            ctx.ood("lattice:invalid_geometry")
+            return
+        v12 = A.compute_affinity(g1, g2, time_buffer=tb, freq_buffer=fb)
+        v21 = A.compute_affinity(g2, g1, time_buffer=tb, freq_buffer=fb)
+    except Exception as e:
+        ctx.violate_exc("raises", f"raises:{type(e).__name__}", e, spec=spec)
+        return
+    ctx.mon("affinity.areal_iou_on_lattice")
+    touching = bool(c1 and c2) and not (c1 & c2)
+    ctx.note("lattice:" + ("overlap" if c1 & c2 else "touch_or_apart"))
+    for v in (v12, v21):
+        if abs(v - want) > REAL_TOL:
+            ctx.violate("areal_iou", "areal_iou", observed=[v12, v21], expected=want, spec=spec)
+            break
+
 PLACEMENTS = ["identical", "nested", "partial", "touching", "time_disjoint", "far"]
 BUFFERS = {"small": (1e-3, 10.0), "default": (0.01, 100.0), "large": (1.0, 5000.0), "huge": (4.0, 20000.0), "zero": (0.0, 0.0)}
 
@@ -232,8 +340,10 @@ def run(ctx):
                 "non-trivial = the two geometries differ or have different types; distinct = distinct (g1, g2, buffers)")
     ctx.assumptions += ["valid, non-self-intersecting geometries; buffers strictly positive when a 0/1-D geometry takes part",
                         "'buffered extent' of points/lines = bounds of the library's own buffer_geometry result (C11 constrains that function)",
-                        f"derived reals compared at {REAL_TOL}; shift invariance at {SHIFT_TOL}"]
-    ctx.must_monitors += ["compute_affinity.post", "affinity.symmetry", "affinity.shift", "affinity.self", "affinity.time_only", "affinity.box_box", "affinity.time_disjoint"]
+                        f"derived reals compared at {REAL_TOL}; shift invariance at {SHIFT_TOL}",
+                        "areal (box / polygon / multi-polygon) pairs with axis-parallel edges on a shared dyadic lattice: the value is the ratio of "
+                        "shared to covered lattice cells (the library documents the value as intersection area over union area; areal types are not buffered)"]
+    ctx.must_monitors += ["compute_affinity.post", "affinity.symmetry", "affinity.shift", "affinity.self", "affinity.time_only", "affinity.box_box", "affinity.time_disjoint", "affinity.areal_iou_on_lattice"]
     ctx.must_reach += ["evaluation/affinity.py::compute_affinity", "evaluation/affinity.py::compute_affinity_in_time", "evaluation/affinity.py::_prepare_geometry"]
 
     # directed: identical points/lines (self affinity slightly above one on the pinned tree), zero-extent pairs
@@ -292,6 +402,13 @@ def run(ctx):
         s1, s2 = geoms.geom_in_box(rng, t1, *b1), geoms.geom_in_box(rng, t2, *b2)
         ctx.case((t1, t2, "random", "random"), {"g1": s1, "g2": s2, "tb": tb, "fb": fb})
         judge(ctx, s1, s2, tb, fb)
+    # pairs drawn on one coarse lattice: shared edges, shared vertices, overlap here and contact there are the norm
+    for _ in range(ctx.scale(400, 3000)):
+        lat = (rng.choice([0.0, 0.5, 12.25]), rng.choice([0.25, 0.5, 0.125]), rng.choice([0.0, 1000.0, 20480.0]), rng.choice([250.0, 500.0, 1024.0]))
+        s1, s2 = lattice_geom(rng, *lat), lattice_geom(rng, *lat)
+        tb, fb = rng.choice([(0.01, 100.0), (0.0, 0.0), (1.0, 5000.0)])
+        ctx.case((s1["type"], s2["type"], "lattice", "areal"), {"kind": "lattice", "g1": s1, "g2": s2, "lat": list(lat), "tb": tb, "fb": fb}, nontrivial=(s1 != s2))
+        judge_lattice(ctx, s1, s2, lat, tb, fb)
     FULL = False
 
 
@@ -301,5 +418,8 @@ def replay(ctx, w):
     FULL = True
     s = w["spec"]
     ctx.case("replay", s)
-    judge(ctx, s["g1"], s["g2"], s["tb"], s["fb"])
+    if s.get("kind") == "lattice":
+        judge_lattice(ctx, s["g1"], s["g2"], tuple(s["lat"]), s["tb"], s["fb"])
+    else:
+        judge(ctx, s["g1"], s["g2"], s["tb"], s["fb"])
     FULL = False
